@@ -99,6 +99,10 @@ class XmlTableGen:
         fam = rng.choice([b'x-foobar', b'Statusline', b'vendorext', b'zz-long-name'])
         lit_pool = [fam, fam[:len(fam) - 3], fam[:4], b'unk', b'X-Custom']
         all_names = {bytes.fromhex(t[0]) for t in tags}
+        # strings the conversion itself handles for this language (public identifier, DTD, root,
+        # namespace names): as repeated content they meet the header / string-table code on its own data
+        selfs = [bytes.fromhex(x) for x in (pub['xml'], pub['dtd'], pub['root']) if x] + list(nsmap.values())
+        own = rng.choice(selfs) if selfs else b'hello'
 
         def elt(depth, page):
             t = rng.choice(tags)
@@ -130,7 +134,7 @@ class XmlTableGen:
                 if rng.random() < 0.5:
                     kids += elt(depth + 1, t[1])
                 else:
-                    kids += rng.choice(TEXTS) if rng.random() < 0.4 else rng.choice([b'hello', b'hello', b'repeat me please', b'repeat me please', b' ', fam, fam, fam + b' again'])
+                    kids += rng.choice(TEXTS) if rng.random() < 0.4 else rng.choice([b'hello', b'hello', b'repeat me please', b'repeat me please', b' ', fam, fam, fam + b' again', own, own])
             if kids or rng.random() < 0.3:
                 return out + b'>' + kids + b'</' + name + b'>'
             return out + b'/>'
@@ -138,5 +142,12 @@ class XmlTableGen:
         body = b'<' + root
         if root_row[1] in nsmap:
             body += b' xmlns="' + nsmap[root_row[1]] + b'"'
-        body += b'>' + b''.join(elt(1, root_row[1]) for _ in range(rng.randint(0, n))) + b'</' + root + b'>'
+        echo = b''
+        if rng.random() < 0.25:
+            # the same complete text twice (so that it is in the string table), taken from the language's own data
+            t = rng.choice([r for r in tags if r[1] == root_row[1]] or tags)
+            if t[1] == root_row[1]:
+                e1 = b'<' + bytes.fromhex(t[0]) + b'>' + own.replace(b'&', b'&amp;').replace(b'<', b'&lt;') + b'</' + bytes.fromhex(t[0]) + b'>'
+                echo = e1 + e1
+        body += b'>' + echo + b''.join(elt(1, root_row[1]) for _ in range(rng.randint(0, n))) + b'</' + root + b'>'
         return head + body
